@@ -551,7 +551,8 @@ impl Part for C16 {
             let before = &po.before[i].1;
             let after = &po.after[i].1;
             if before.is_empty() {
-                out.fail(format!("non-vacuity: {} predicted by R1 not found in the live {:?} ({} bytes) - the probe cannot see it", name, c.what, po.size));
+                // not being able to SEE the secret is not a violation of C16 (the object may keep it behind a pointer): no verdict
+                out.fail_machinery(format!("non-vacuity: {} predicted by R1 not found in the live {:?} ({} bytes) - the probe cannot see it, so it cannot decide whether it is wiped", name, c.what, po.size));
             } else {
                 out.nontrivial = true;
             }
